@@ -145,9 +145,9 @@ def scenarios(pid, tier, seed):
         ]
     if pid == "C02":
         return [
-            {"args": ["scen", "family=tree", "depth=3", "budget=%d" % (250 if q else 6000), "ops=genl", "sync=1", S], "shards": 16},
-            {"args": ["scen", "family=walk", "count=%d" % (32 if q else 320), "len=60", "undo=15", "ops=genl", "sync=1", S], "shards": 16},
-            {"args": ["scen", "family=transpositions", "count=%d" % (40 if q else 400), "ops=genl", "sync=1", S], "shards": 1},
+            {"args": ["scen", "family=tree", "depth=3", "budget=%d" % (250 if q else 6000), "ops=genl,genlx", "sync=1", S], "shards": 16},
+            {"args": ["scen", "family=walk", "count=%d" % (32 if q else 320), "len=60", "undo=15", "ops=genl,genlx", "sync=1", S], "shards": 16},
+            {"args": ["scen", "family=transpositions", "count=%d" % (40 if q else 400), "ops=genl,genlx", "sync=1", S], "shards": 1},
             {"args": ["scen", "family=epfamilies", "ops=genl", "sync=1", S], "shards": 1},
             {"args": ["scen", "family=revisits", "ops=genl", "walkpos=%d" % (60 if q else 2000), S], "shards": 4},
             # the same placement met again after castling rights have gone (kings and home rooks out and back, three times over)
@@ -212,6 +212,8 @@ def scenarios(pid, tier, seed):
         return [
             {"args": ["scen", "family=revisits", "search=1", "ops=snap", "walkpos=%d" % (30 if q else 1500), S], "shards": 4},
             {"args": ["scen", "family=searches", "depths=0,1,2", "pools=%s" % ("1,4,16" if q else "1,2,4,16,64"), "walkpos=%d" % (4 if q else 400), S], "shards": 16},
+            # one context asked about the same placement with either side to move
+            {"args": ["scen", "family=searches", "depths=2", "pools=1,4", "sides=1", "maxpieces=%d" % (8 if q else 32), "walkpos=%d" % (6 if q else 300), S], "shards": 16},
         ] + ([] if q else [
             {"args": ["scen", "family=searches", "depths=3", "pools=1,4,16,64", "maxpieces=12", "walkpos=200", S], "shards": 16},
         ])
@@ -220,11 +222,13 @@ def scenarios(pid, tier, seed):
             {"args": ["scen", "family=searches", "depths=1,2", "pools=1,4,16", "walkpos=%d" % (6 if q else 400), "game=%d" % (3 if q else 12), "maxpieces=%d" % (20 if q else 32), S], "shards": 16},
             {"args": ["scen", "family=searches", "depths=3", "pools=1,4,16", "maxpieces=%d" % (6 if q else 16), "walkpos=%d" % (6 if q else 300), "game=%d" % (2 if q else 10), S], "shards": 16},
             # one context, the same placement searched at several half-move clocks (near the move-count draw)
-            {"args": ["scen", "family=searches", "depths=%s" % ("2" if q else "2,3"), "pools=1,4", "clocks=1", "maxpieces=%d" % (5 if q else 12), "walkpos=%d" % (4 if q else 200), S], "shards": 16},
+            {"args": ["scen", "family=searches", "depths=%s" % ("2" if q else "2,3"), "pools=1,4", "clocks=1", "sides=1", "maxpieces=%d" % (5 if q else 12), "walkpos=%d" % (4 if q else 200), S], "shards": 16},
             # depth 5: the first depth at which two root moves' subtrees share a position with two or more plies still to
             # search.  Decided by the harness against a plain minimax over the engine's own generator and leaf score
             # (the extracted model needs ~25 s per depth-5 position; it is the oracle of the thorough tier's sample below)
             {"args": ["scen", "family=searches", "depths=5", "pools=1,4", "selfmm=1", "maxpieces=4", "walkpos=%d" % (400 if q else 4000), "game=%d" % (0 if q else 3), S], "shards": 16},
+            # depth 6 in mating nets (lone king v two heavy pieces): forced mates of different lengths inside the horizon
+            {"args": ["scen", "family=searches", "depths=6", "pools=1,4", "selfmm=1", "nets=%d" % (32 if q else 400), "walkpos=0", S], "shards": 16},
         ] + ([] if q else [
             {"args": ["scen", "family=searches", "depths=4,5", "pools=1,4", "maxpieces=4", "walkpos=100", S], "shards": 16},
         ])
